@@ -80,6 +80,15 @@ class Server:
         if name not in self.queues:
             self.queues[name] = Q(name, args)
 
+    def delete_queue(self, name: str) -> int:
+        """The queue disappears (deleted by an operator / another client): its consumers get a server-side Basic.Cancel."""
+        q = self.queues.pop(name, None)
+        if q is None:
+            return 0
+        for ch, tag in q.consumers:
+            ch.consumers.pop(tag, None)
+        return len(q)
+
     def publish(self, rk: str, body: bytes, props: Any) -> bool:
         q = self.queues.get(rk)
         if q is None:
@@ -283,7 +292,10 @@ class Channel:
         await self._lat()
         if queue not in self.s.queues:
             self.consumers.pop(tag, None)
-            raise ConnectionError(f"NOT_FOUND - no queue '{queue}'")
+            from aiormq.exceptions import ChannelNotFoundEntity
+
+            # (RabbitMQ also closes the channel on a 404; the model only reports the error)
+            raise ChannelNotFoundEntity(f"NOT_FOUND - no queue '{queue}' in vhost '/'")
         self.cprefetch[tag] = self.qos
         self.s.queues[queue].consumers.append((self, tag))
         self.ncalls += 1
@@ -318,11 +330,8 @@ class Channel:
     async def queue_delete(self, queue: str = "", if_unused: bool = False, if_empty: bool = False,
                            nowait: bool = False, timeout: Any = None) -> Any:
         await self._lat()
-        q = self.s.queues.pop(queue, None)
-        if q is not None:
-            for ch, tag in q.consumers:
-                ch.consumers.pop(tag, None)  # server-side Basic.Cancel
-        return spec.Queue.DeleteOk(message_count=0 if q is None else len(q))
+        n = self.s.delete_queue(queue)
+        return spec.Queue.DeleteOk(message_count=n)
 
 
 class Conn:
